@@ -114,34 +114,86 @@ def check_block_table(run, rule):
         T = rec["qn"]
         tag = short(T)
         fields = {f["n"]: f for f in rec["fields"]}
-        items = [f for f in rec["fields"] if f["t"].startswith("std::deque<") or f["t"].startswith("std::list<")]
-        vec = [f for f in rec["fields"] if f["t"].startswith("std::vector<")]
-        idx = [f for f in rec["fields"] if "KeyRef<" in f["t"]]
-        ok = len(items) == 1 and len(idx) == 1 and not vec
-        run.ob(rule, "%s:reference-stable-store" % tag, ok, rec["file"], rec["line"],
-               "values live in a %s (references stay valid when the table grows)" % items[0]["t"].split("<")[0] if ok else
-               "the value store must be a reference-stable container (deque/list) because the index keeps references into it; found %s" % [f["t"][:40] for f in rec["fields"]])
-        if not ok:
+        seqs = [f for f in rec["fields"] if f["t"].startswith(("std::deque<", "std::list<", "std::vector<"))]
+        maps = [f for f in rec["fields"] if f["t"].startswith(("std::unordered_map<", "std::map<"))]
+        if len(seqs) != 1 or len(maps) != 1:
+            run.ob(rule, "%s:shape" % tag, None, rec["file"], rec["line"], "expected one value store and one reverse index, found %s" % [f["t"][:40] for f in rec["fields"]])
             continue
-        store, index = items[0]["n"], idx[0]["n"]
+        store, index = seqs[0]["n"], maps[0]["n"]
+        mt = maps[0]["t"]
+        keyt = mt[mt.index("<") + 1:]
+        depth = 0
+        for i_, ch in enumerate(keyt):
+            if ch == "<":
+                depth += 1
+            elif ch == ">":
+                depth -= 1
+            elif ch == "," and depth == 0:
+                keyt = keyt[:i_]
+                break
+        keyt = keyt.strip()
+        borrows = "KeyRef<" in keyt
+        integral = keyt in ("unsigned long", "unsigned int", "long", "int", "unsigned long long", "unsigned short")
+        # the reverse index must be keyed by the value (a reference to the stored element or a copy of the key), never by its hash
+        run.ob(rule, "%s:index-keyed-by-value" % tag, not integral, rec["file"], maps[0].get("l", rec["line"]),
+               "reverse index is keyed by %s" % ("a reference to the stored element" if borrows else keyt) if not integral else
+               "the reverse index is keyed by %s (a hash of the value), so two distinct values with the same hash share one slot: the earlier one is no longer "
+               "found and is stored again — the table then holds two equal entries" % keyt)
+        if borrows:
+            stable = seqs[0]["t"].startswith(("std::deque<", "std::list<"))
+            run.ob(rule, "%s:reference-stable-store" % tag, stable, rec["file"], rec["line"],
+                   "values live in a %s (references stay valid when the table grows)" % seqs[0]["t"].split("<")[0] if stable else
+                   "the value store must be a reference-stable container (deque/list) because the index keeps references into it; found %s" % seqs[0]["t"][:50])
         # record_last_key: the KeyRef is rooted at the table's own store
-        rk = [f for f in facts.fns(T + "::record_last_key")]
-        if rk:
-            rooted = None
-            for c in ir.calls_in(rk[0]["body"]):
-                if c.get("k") == "Construct" and "KeyRef" in (c.get("t") or "") and c.get("args"):
-                    txt = show(c["args"][0])
-                    rooted = ("this.%s" % store) in txt
-                    arg_txt = txt
-            run.ob(rule, "%s:index-borrows-own-store" % tag, rooted, rk[0], rk[0]["line"],
-                   "the reverse index references an element of %s" % store if rooted else
-                   "the KeyRef stored in %s is built from %s, not from an element of the table's own %s: it dangles when that object dies" % (index, arg_txt if rooted is not None else "?", store))
-        # add_value appends then records
+        # every KeyRef built inside the class is rooted at the table's own store (not at an argument or a local)
+        methods = [f for f in facts.functions.values() if f.get("cls") == T]
+        writers_of_index = set()
+        for mf in methods:
+            for n_ in ir.walk(mf["body"]):
+                if (n_.get("k") == "OpCall" and n_.get("op") == "[]" and n_.get("args") and path(n_["args"][0]) == ("this", index)) or \
+                        (n_.get("k") == "MCall" and callee_name(n_) in ("insert", "emplace", "insert_or_assign", "try_emplace") and path(n_.get("recv")) == ("this", index)):
+                    writers_of_index.add(mf["qn"])
+        if borrows:
+            for mf in methods:
+                if mf["qn"].split("::")[-1] in ("find",):
+                    continue      # lookups build a temporary KeyRef from the argument; it is not stored
+                for c in ir.calls_in(mf["body"]):
+                    if c.get("k") == "Construct" and "KeyRef" in (c.get("t") or "") and c.get("args") and not c.get("copymove"):
+                        txt = show(c["args"][0])
+                        src = unwrap_all_casts(c["args"][0])
+                        rooted = ("this.%s" % store) in txt
+                        if not rooted:
+                            # an iterator / reference local obtained from the own store
+                            envm = Env(mf["body"])
+                            for x_ in ir.walk(c["args"][0]):
+                                if x_.get("k") == "Ref" and x_.get("d") == "local":
+                                    d_ = envm.defs.get(path(x_)[0]) if path(x_) else None
+                                    if d_ is not None and ("this.%s" % store) in show(d_):
+                                        rooted = True
+                                    for lp_ in ir.walk(mf["body"]):
+                                        if lp_.get("k") == "For" and lp_.get("init") is not None:
+                                            for v_ in (lp_["init"].get("vars", []) if lp_["init"].get("k") == "Decl" else []):
+                                                if "n" in v_ and ("l:%s#%s" % (v_["n"], v_["id"]),) == path(x_) and v_.get("init") is not None and ("this.%s" % store) in show(v_["init"]):
+                                                    rooted = True
+                        if not rooted:
+                            # a range-for variable over the own store is an element of the own store
+                            for lp_ in ir.walk(mf["body"]):
+                                if lp_.get("k") == "RangeFor" and path(lp_.get("range")) == ("this", store) and ("l:%s#%s" % (lp_["var"]["n"], lp_["var"]["id"])) in txt:
+                                    rooted = True
+                        run.ob(rule, "%s:%s:index-borrows-own-store" % (tag, mf["qn"].split("::")[-1]), rooted, mf, c.get("l", mf["line"]),
+                               "the stored KeyRef references an element of %s" % store if rooted else
+                               "the KeyRef stored in %s is built from %s, not from an element of the table's own %s: it dangles when that object dies" % (index, txt, store))
+        # add_value appends, then the appended element is entered into the index (directly or through a helper of the class)
         for av in facts.fns(T + "::add_value"):
-            calls = [callee_name(c) for c in ir.calls_in(av["body"])]
-            ok = "push_back" in calls and "record_last_key" in calls and calls.index("push_back") < calls.index("record_last_key")
+            seq = []
+            for c in ir.calls_in(av["body"]):
+                if callee_name(c) in ("push_back", "emplace_back") and path(c.get("recv")) == ("this", store):
+                    seq.append("append")
+                elif callee_qn(c) in writers_of_index or (c.get("k") == "OpCall" and c.get("op") == "[]" and c.get("args") and path(c["args"][0]) == ("this", index)):
+                    seq.append("index")
+            ok = "append" in seq and "index" in seq and seq.index("append") < seq.index("index")
             run.ob(rule, "%s:add_value(%s)" % (tag, "rvalue" if "&&" in av["sig"][0] else "const-ref"), ok, av, av["line"],
-                   "append, then index the appended element" if ok else "add_value must push_back and then record_last_key (found %s)" % calls)
+                   "append, then index the appended element" if ok else "add_value must append to %s and then enter the element into %s (found %s)" % (store, index, seq))
         for ad in facts.fns(T + "::add"):
             # find-or-append
             calls = [callee_name(c) for c in ir.calls_in(ad["body"])]
@@ -173,7 +225,7 @@ def check_block_table(run, rule):
         for fd in facts.fns(T + "::find"):
             ok = any(callee_name(c) == "find" and path(c.get("recv")) == ("this", index) for c in ir.calls_in(fd["body"]))
             run.ob(rule, "%s:find-uses-index" % tag, ok, fd, fd["line"], "find() consults the reverse index", nontrivial=False)
-    run.floor(rule, 40, "BlockTable obligations over all specialisations")
+    run.floor(rule, 28, "BlockTable obligations over all specialisations")
 
 
 def check_reinterpret(run, rule):
